@@ -6,17 +6,7 @@ import mergelib
 import vlib
 
 MANIFEST = {
-    "text": "Merge-level half of C15, in Coq over the model of unification::merge whose usage table is regenerated from "
-            "WordUse::merge/size/is_definitely_signed on every run: usages form a bounded join-semilattice and wuse_merge is the least "
-            "upper bound of the induced order (exhaustive case analysis over the generated table), widths are a flat lattice, and "
-            "folding merge over ANY list of word evidence yields the lattice join of the family -- a known width and the most specific "
-            "usage are kept, compatible words never conflict, and the result is a Conflict exactly when the family has no upper bound "
-            "(two different widths or usages without a common refinement); the join does not depend on the order of the family. Any is "
-            "the identity, conflicts absorb and accumulate, plainly contradictory constructors (mapping / fixed array against arrays, "
-            "bytes, sized words) conflict. For three pieces of evidence without Packed: a contradiction between two of them is never "
-            "silently dropped under either grouping, OUTSIDE the recorded class K1 (general theorem, all widths/variables); inside it "
-            "C15_contradiction_refuted gives the witness. The same laws are evaluated on the outputs of the REAL merge for every pair "
-            "and triple of C16's 40-element domain, random expressions and random word families (left folds of 2-6 words).",
+    "text": "Merge-level half of C15, in Coq over the model of unification::merge whose usage table is regenerated from WordUse::merge/size/is_definitely_signed on every run: usages form a bounded join-semilattice and wuse_merge is the least upper bound of the induced order (exhaustive case analysis over the generated table), widths are a flat lattice, and folding merge over ANY list of word evidence yields the lattice join of the family -- a known width and the most specific usage are kept, compatible words never conflict, and the result is a Conflict exactly when the family has no upper bound (two different widths or usages without a common refinement); the join does not depend on the order of the family. Any is the identity, conflicts absorb and accumulate, plainly contradictory constructors (mapping / fixed array against arrays, bytes, sized words) conflict. For three pieces of evidence without Packed: a contradiction between two of them is never silently dropped under either grouping, OUTSIDE the recorded class K1 (general theorem, all widths/variables); inside it C15_contradiction_refuted gives the witness. The same laws are evaluated on the outputs of the REAL merge for every pair and triple of C16's 40-element domain, random expressions and random word families (left folds of 2-6 words). UNIFICATION LEVEL: C15_unify_words_join (props/C15_unify.v) proves that unify resolves every packed-free class whose evidence is words to the lattice join, for every iteration order; the check also runs judgement sets of the order-free fragment (incl. constructed types sharing one variable in several component positions) through the REAL unify and requires, for every class of the congruence closure computed in Coq (proved to be unify's partition on that fragment), that each member resolves to the join of ALL evidence of the class (code 23) -- so a lost component equality shows up as evidence that was not joined.",
     "note": "The unification-level half (resolution through union-find, rounds and component equalities) belongs to the C14 stage that "
             "builds on Merge.v. 'Contradictions conflict' is false where a DynamicArray/Bytes absorbs two contradictory words: known "
             "finding K1 (key C15:K1), same class as C16:K1, classified with the Coq predicate K1. Trusted: Coq kernel + vm_compute; "
@@ -34,6 +24,47 @@ CODES = {12: "Any is not an identity / unexpected panic", 13: "a conflict does n
          52: "a contradiction among three pieces of evidence is silently dropped inside known class K1 (array-like type absorbs both words)"}
 
 HOW = "printf '%s\\n' '<line>' | build/harness-target/debug/slxh merge   (then coq/MergeCases.v check_case15)"
+
+
+def unify_level(ctx, hb):
+    """the unification-level half: judgement sets of the proved order-free fragment are run through the REAL unify; for every
+    class of the congruence closure (computed in Coq, proved to be unify's partition there) whose evidence is words only,
+    every member must resolve to the lattice join of all that evidence (UnifyJoinCases.closure_join_code, code 23)."""
+    import re
+    import p_c14
+    if not hb or ctx.replay_in and "J " not in json.load(open(ctx.replay_in))["replay"].get("line", ""):
+        return
+    vlib.prove(ctx, "props/C15_unify.v", ["UnifyJoinCases.vo"])
+    if ctx.replay_in:
+        lines = [json.load(open(ctx.replay_in))["replay"]["line"]]
+    else:
+        rng = ctx.rng
+        lines = []
+        seen = set()
+        n = 500 if ctx.quick else 8000
+        while len(lines) < n:
+            g = rng.choice([p_c14.gen_congruence, p_c14.gen_congruence_shared, p_c14.gen_congruence_shared, p_c14.gen_truth])
+            res = g(rng)
+            nv, judg = res[0], res[1]
+            l = p_c14.fmt("sorted", "infer", nv, judg)
+            if l not in seen:
+                seen.add(l)
+                lines.append(l)
+    ok, outs, diag = vlib.run_harness_sharded(hb, ["unify"], lines, timeout=600)
+    bad_in = [i for i, t in enumerate(outs) if not t.startswith("UCase")]
+    ctx.oblige("harness:unify:join", "correspondence", ok and not bad_in, "%s %s" % (diag, [outs[i][:100] for i in bad_in[:3]]))
+    if not ok or bad_in:
+        return
+    hdr = p_c14.HEADER.replace("UnifyCases.", "UnifyCases UnifyJoinCases.") if "UnifyJoinCases" not in p_c14.HEADER else p_c14.HEADER
+    bad = vlib.run_cases(ctx, "unify-join", hdr, outs, per_shard=max(20, len(outs) // 32 + 1), fn="closure_join_code")
+    inside = vlib.run_cases(ctx, "unify-join-inside", hdr, outs, per_shard=max(20, len(outs) // 32 + 1), fn="closure_join_inside")
+    for idx, code in bad:
+        ctx.violate("C15:23:%s" % lines[idx][:100],
+                    "unification: a class of the congruence closure whose evidence is words only did not resolve to the join of that "
+                    "evidence: %s" % lines[idx][:300],
+                    {"line": lines[idx], "code": code, "impl": outs[idx][:2000],
+                     "how": "printf '%s\\n' '<line>' | build/harness-target/debug/slxh unify   (then coq/UnifyJoinCases.v closure_join_code)"})
+    ctx.coverage["unification_level"] = {"judgement_sets": len(lines), "inside_order_free_fragment": len(inside)}
 
 
 def check(ctx):
@@ -90,6 +121,7 @@ def check(ctx):
                 "exhaustive_note": "all ordered pairs and triples of C16's 40-element evidence domain; word families and random "
                                    "expressions are sampled",
             })
+    unify_level(ctx, hb)
     return vlib.finish(ctx, rule="one evaluation = one harness line; distinct lines; non-trivial = no operand is Any; known-class hits "
                        "counted, one witness replayed", samples=["fold 0 6 W:160:Bytes W:-:Numeric Any W:160:Address",
                                                                  "triple 0 2 W:8:Bool W:160:Address D:0"])
